@@ -26,3 +26,22 @@ def nth_weekday(year, month, occurrence, day_of_week):
 
     r = LocalDate.from_year_month_week_and_day(year, month, occurrence, day_of_week)
     return (r.year, r.month, r.day, int(r.day_of_week), CalendarSystem.iso.get_days_in_month(year, month))
+
+
+def adjust(kind, arg, date):
+    """apply one of the stock date adjusters"""
+    from pyoda_time import DateAdjusters
+
+    if kind == "start_of_month":
+        f = DateAdjusters.start_of_month
+    elif kind == "end_of_month":
+        f = DateAdjusters.end_of_month
+    elif kind == "next_or_same":
+        f = DateAdjusters.next_or_same(arg)
+    elif kind == "previous_or_same":
+        f = DateAdjusters.previous_or_same(arg)
+    elif kind == "next":
+        f = DateAdjusters.next(arg)
+    else:
+        f = DateAdjusters.previous(arg)
+    return f(date)
